@@ -467,6 +467,22 @@ def _gen_terms(run):
     return ["--terms", path]
 
 
+def _ctor_steps(run, which, prefix):
+    """One-step conformance with the model of the constructors / the derivative (Constructors.tla): semantic
+    obligations belong to the property, structural ones (RULES:) are an internal specification -> NOTE."""
+    out, info = _drive(run, "ctor", extra=_gen_terms(run) if run.tier == "thorough" else ())
+    run.validate(which, os.path.join(out, which + ".ndjson"), "Trace_Constructors", "Trace_Constructors.cfg",
+                 [prefix], workers=workers(run), timeout=1500, note_prefixes=("RULES:",),
+                 nontrivial=lambda r: r.get("op") in ("ctor", "dstep") and (r.get("args") or r.get("subs")),
+                 need={"semantic": lambda r: r.get("sem") is True,
+                       "union": (lambda r: r.get("f") in ("union", "union_list")) if which == "ctor_steps"
+                                else (lambda r: r.get("e", {}).get("k") == "alt")})
+    run.extra["ctor_driver"] = info
+    run.rule += ("; plus one-step conformance: every constructor call (resp. every derivative, one level at a time) "
+                 "made on the real terms of the families is compared with the model of module Constructors "
+                 "(language exactly; tree shape as NOTE-level internal specification)")
+
+
 def _u1_rules(run):
     if run.tier == "thorough":
         run.model("MC_Rules", "MC_Rules.cfg", workers=workers(run), timeout=3000,
@@ -500,6 +516,12 @@ def c01(run):
                  ["C01:", "wrappers"], workers=workers(run), nontrivial=nt, timeout=1500,
                  need={"via_smt": lambda r: r.get("via") == "smt", "via_manager": lambda r: r.get("via") == "manager"})
     run.extra["driver"] = info
+    _ctor_steps(run, "ctor_steps", "C01:")
+    if run.tier == "thorough":
+        run.model("MC_Constructors", "MC_Constructors.cfg", workers=workers(run), timeout=3000,
+                  note="the model of the constructors and of the derivative rules explored in product with the residual "
+                       "automaton of every kernel construction of depth <= 2: normal forms, nullable flag = finality "
+                       "along every word, finite derivative closure")
 
 
 @check("C02")
@@ -553,6 +575,7 @@ def c03(run):
     run.validate("c03_products", os.path.join(out, "c03_products.ndjson"), "Trace_Product", "Trace_Product.cfg",
                  ["C03:", "build/"], workers=workers(run), nontrivial=nt, need=need, timeout=1500)
     run.extra["driver"] = info
+    _ctor_steps(run, "deriv_steps", "C03:")
 
 
 def _depth_ge1(r):
@@ -725,7 +748,7 @@ def all_u1(ids):
     models = [("MC_Chars", "MC_Chars.cfg"), ("MC_Regex", "MC_Regex.cfg"), ("MC_Literals", "MC_Literals.cfg"),
               ("MC_Strings", "MC_Strings.cfg"), ("MC_LoopRanges", "MC_LoopRanges.cfg"), ("MC_Dfa", "MC_Dfa.cfg"),
               ("MC_PartGen", "MC_PartGen.cfg"), ("MC_Builder", "MC_Builder.cfg"), ("MC_Manager", "MC_Manager.cfg"),
-              ("MC_Hopcroft", "MC_Hopcroft.cfg"), ("MC_Components", "MC_Components.cfg"), ("MC_Terms", "MC_Terms.cfg"), ("MC_Rules", "MC_Rules.cfg"), ("MC_HashCons", "MC_HashCons.cfg"), ("MC_CoverSearch", "MC_CoverSearch.cfg"), ("MC_MergeSweep", "MC_MergeSweep.cfg")]
+              ("MC_Hopcroft", "MC_Hopcroft.cfg"), ("MC_Components", "MC_Components.cfg"), ("MC_Terms", "MC_Terms.cfg"), ("MC_Rules", "MC_Rules.cfg"), ("MC_HashCons", "MC_HashCons.cfg"), ("MC_CoverSearch", "MC_CoverSearch.cfg"), ("MC_MergeSweep", "MC_MergeSweep.cfg"), ("MC_Constructors", "MC_Constructors.cfg")]
     bad = 0
     for m, c in models:
         if ids and m not in ids:
@@ -999,10 +1022,23 @@ def _m_c09(rec, rnd):
     return _m_c06(rec, rnd)
 
 
+def _m_ctor(rec, rnd):
+    if not rec.get("sem"):
+        return False
+    if rec.get("op") == "ctor" and rec.get("f") in ("concat", "union", "inter", "star", "opt", "complement", "mk_loop"):
+        rec["res"] = {"k": "eps"} if rec["res"].get("k") != "eps" else {"k": "none"}
+        rec["nullable"] = rec["res"]["k"] == "eps"
+        return True
+    if rec.get("op") == "dstep" and rec["e"].get("k") in ("cat2", "loop", "alt", "and", "not"):
+        rec["res"] = {"k": "eps"} if rec["res"].get("k") != "eps" else {"k": "none"}
+        return True
+    return False
+
+
 SELFTEST = {
-    "C01": [{"c01_products": _m_products, "c01_mem": _m_mem}, {"c01_products": _m_products_edge}],
+    "C01": [{"c01_products": _m_products, "c01_mem": _m_mem, "ctor_steps": _m_ctor}, {"c01_products": _m_products_edge}],
     "C02": [{"c02_products": _m_products}, {"c02_products": _m_products_edge}],
-    "C03": [{"c03_products": _m_c03}, {"c03_products": _m_products_edge}],
+    "C03": [{"c03_products": _m_c03, "deriv_steps": _m_ctor}, {"c03_products": _m_products_edge}],
     "C04": [{"dfa_minimize": _m_c04, "dfa_random_minimize": _m_c04}],
     "C05": [{"c05_empty": _m_c05}],
     "C06": [{"c06_strings": _m_c06}],
